@@ -330,7 +330,7 @@ def r4_fno_structure(repo: Repo, rep):
         up, down, seq = (p.attrs.get(f"self.{a}") for a in ("channel_up_sampling", "channel_down_sampling", "fourier_sequential"))
         if gs.get("channel_up_sample_network") is False and gs.get("channel_down_sample_network") is False:
             npaths += 1
-            okl = dump(up) == f"nn.Linear(self.input_space.dim, {hid}, bias=True)" and dump(down) == f"nn.Linear({hid}, self.output_space.dim, bias=True)"
+            okl = dump(up) == f"torch.nn.Linear(self.input_space.dim, {hid}, bias=True)" and dump(down) == f"torch.nn.Linear({hid}, self.output_space.dim, bias=True)"
             rep.check(R, okl, init.site(), init.fq, "default channel maps are nn.Linear(in, hidden) / nn.Linear(hidden, out)", f"{dump(up)[:80]} / {dump(down)[:80]}", "channel map defaults")
         if not any(pol and dump(g).startswith("range(") for g, pol, k in p.guards):
             continue
